@@ -85,6 +85,7 @@ class Evaluator(object):
         self.leaf_calls = dict(leaf_calls or {})
         self.leaf_args = {}
         self.consts = dict(consts or {})       # python names bound to numbers: "pi" -> ("el","pi",()) etc. are given in decl
+        self.assume = {}                       # source text of a scalar condition -> its (assumed) truth value: selects branches
         self.returned = None
 
     # ------------------------------------------------------------------ expressions
@@ -133,11 +134,22 @@ class Evaluator(object):
                 raise Untranslatable("comparison %s" % ast.unparse(node))
             a, b = self.ev(node.left), self.ev(node.comparators[0])
             return Arr(bcast(a, b), ("cmp", self.CMP[type(node.ops[0])], a.e, b.e))
+        if isinstance(node, ast.IfExp):
+            return self.ev(node.body if self.truth(node.test) else node.orelse)
         if isinstance(node, ast.Subscript):
             return self.subscript(self.ev(node.value), node.slice)
         if isinstance(node, ast.Call):
             return self.call(node)
         raise Untranslatable("expression %s" % ast.unparse(node))
+
+    def truth(self, test):
+        """a scalar Python condition whose value the caller fixed in .assume (evaluated once per combination)"""
+        txt = ast.unparse(test)
+        if txt in self.assume:
+            return bool(self.assume[txt])
+        if isinstance(test, ast.UnaryOp) and isinstance(test.op, ast.Not) and ast.unparse(test.operand) in self.assume:
+            return not self.assume[ast.unparse(test.operand)]
+        raise Untranslatable("condition %s is not one of the assumed flags" % txt)
 
     @staticmethod
     def is_bool(e):
@@ -293,6 +305,10 @@ class Evaluator(object):
             if len(kw) == 1 and kw[0].arg == "out":
                 self.ev(st.value)
                 return
+        if isinstance(st, ast.If):
+            for b in (st.body if self.truth(st.test) else st.orelse):
+                self.stmt(b)
+            return
         if isinstance(st, ast.Return) and st.value is not None:
             self.returned = self.ev(st.value)
             return
